@@ -250,3 +250,43 @@ func sigOf(fn *ssa.Function) (params, results []types.Type) {
 	}
 	return
 }
+
+// oneFieldDeep is oneField that also looks into fields whose type is a struct declared in the same package (a typed
+// wrapper around the word the role is about): it returns the innermost matching field.
+func (c *Ctx) oneFieldDeep(role string, t types.Type, pred func(*types.Var) bool) *types.Var {
+	var found []*types.Var
+	var walk func(t types.Type, depth int)
+	walk = func(t types.Type, depth int) {
+		if depth > 2 {
+			return
+		}
+		st := structOf(namedOf(t))
+		if st == nil {
+			if s, ok := t.Underlying().(*types.Struct); ok {
+				st = s
+			} else {
+				return
+			}
+		}
+		for i := 0; i < st.NumFields(); i++ {
+			f := st.Field(i).Origin()
+			if pred(f) {
+				found = append(found, f)
+				continue
+			}
+			if n := namedOf(f.Type()); n != nil && n.Obj().Pkg() != nil && namedOf(t) != nil && namedOf(t).Obj().Pkg() == n.Obj().Pkg() {
+				if _, isStruct := n.Underlying().(*types.Struct); isStruct {
+					if _, isPtr := f.Type().(*types.Pointer); !isPtr {
+						walk(n, depth+1)
+					}
+				}
+			}
+		}
+	}
+	walk(t, 0)
+	if len(found) != 1 {
+		c.Fatalf("role %q: expected exactly one matching field in %s (or in a wrapper struct of it), found %d", role, types.TypeString(t, nil), len(found))
+	}
+	c.Role(role, found[0].Name(), found[0].Pos())
+	return found[0]
+}
